@@ -122,6 +122,18 @@ CHECKS = {
             "Only epoch-0 messages can be altered without keys; DTLS 1.3 field rewrites need unfragmented messages (MTU 4000). Runs cut by the "
             "simnet emission cap (DTLS 1.3 endpoints flooding each other under persistent tampering) are counted, not judged.",
             "DESIGN.md §4 C04"),
+    "C05": ("exploration",
+            "runtime monitoring in lock step: the router holds each genuine record, delivers every mutant one at a time, waits "
+            "for quiescence and observes the receiver's Read log and emissions, then releases the genuine record",
+            "All 20 suites x CID layouts {none, 4/4, 0/8, 8/0} x record padding x payload sizes {0,1,15,16,17,255,1200,8000} x both "
+            "directions (stratified in quick, full product in thorough). Mutants per record: every bit of the header (and of short records), "
+            "one bit per body byte, content type, version, epoch, sequence number, length field, CID, unified-header bits, truncation at every "
+            "length, in-record extension, re-framing under the other header form, the same-index record of a parallel identical session. "
+            "Held = no mutant delivered anything, caused any emission or closed the connection, and the genuine record was then delivered "
+            "exactly once.",
+            "Mutants whose content type becomes change_cipher_spec or whose epoch becomes 0 do not claim protection (statement's own "
+            "exemption); timing side channels of the padding check are not observable by this technique.",
+            "DESIGN.md §4 C05"),
 }
 
 NOT_YET = "monitor not built yet in this session (see DESIGN.md for the planned design)"
